@@ -9,6 +9,9 @@ hed.schema).  From the PROPERTY TEXT the set of accepted spellings is built:
 English plurals come from a hand-written table (PLURALS); unit names without an entry get no plural test.
 Expected value in default units = float(number) * float(unit factor text) * float(prefix factor text).
 
+Extra text around a valid unit ('3 4 m', '3 m m', '3 k Hz', '3 feet inches', two blanks) is "any other unit text": an error
+is expected (C11.reject.extra_text_before_unit / C11.reject.extra_blank_before_unit), silence is a failure.
+
 Real side: HedValidator.validate(HedString(...)), HedTag.get_stripped_unit_value, HedTag.value_as_default_unit.
 """
 import math
@@ -394,6 +397,111 @@ def eval_group(w, version, tag, classes, unit_text, before, literals, count=True
 
 
 # ----------------------------------------------------------------------------------------------------------------
+# extra text between the number and a VALID trailing unit: "any other unit text is reported as an invalid unit"
+# ----------------------------------------------------------------------------------------------------------------
+JUNK = ["4", "x", "of", "1e3", "-2.5"]
+EXTRA_OK_CODES = ("UNITS_INVALID", "VALUE_INVALID")
+L_EXTRA = "C11.reject.extra_text_before_unit"
+L_BLANKS = "C11.reject.extra_blank_before_unit"
+_extra_stats = {}
+
+
+def valid_unit_spellings(orc, classes, mods_filter=None):
+    """-> list of (text, before, (prefix text or None, bare unit text)) - one declared spelling per unit plus up to two
+    prefixed spellings for SI units; units whose name contains a blank are left out"""
+    out = []
+    for c in classes:
+        for u in orc.x["classes"][c]["units"]:
+            if u["deprecated"] or " " in u["name"]:
+                continue
+            bare = u["name"]
+            out.append((bare, u["before"], (None, bare)))
+            want = ("m", "k") if u["symbol"] else ("milli", "kilo")
+            for m in orc.permitted_mods(u):
+                if m["name"] in want:
+                    out.append((m["name"] + bare, u["before"], (m["name"], bare)))
+    seen, res = set(), []
+    for t in out:
+        if t[0] not in seen:
+            seen.add(t[0])
+            res.append(t)
+    return res
+
+
+def extra_text_shapes(number, spelling, before, parts, others):
+    """-> list of (shape, extension).  All contain a number and END (or, for prefix-type units, START) with a valid unit,
+    but carry more text than '<number> <unit>'"""
+    out = []
+    if before:
+        out += [("junk_between", "%s %s %s" % (spelling, j, number)) for j in JUNK[:3]]
+        out.append(("two_units", "%s %s %s" % (spelling, spelling, number)))
+        out.append(("two_numbers", "%s %s %s" % (spelling, number, JUNK[0])))
+        out.append(("blanks", "%s  %s" % (spelling, number)))
+        return out
+    out += [("junk_between", "%s %s %s" % (number, j, spelling)) for j in JUNK]
+    out.append(("two_units", "%s %s %s" % (number, spelling, spelling)))
+    for o in others:
+        out.append(("two_units", "%s %s %s" % (number, o, spelling)))
+    prefix, bare = parts
+    if prefix is not None:
+        out.append(("blank_in_prefixed_unit", "%s %s %s" % (number, prefix, bare)))
+    out.append(("blanks", "%s  %s" % (number, spelling)))
+    out.append(("blanks", "%s   %s" % (number, spelling)))
+    return out
+
+
+def eval_extra_text(w, version, tag, classes, literals, mods_filter=None, count=True, only=None):
+    """only: restrict to one (spelling, extension) pair (replay)"""
+    orc = oracle(version)
+    spellings = valid_unit_spellings(orc, classes, mods_filter)
+    after = [sp for sp, before, _ in spellings if not before]
+    n = 0
+    for k, (spelling, before, parts) in enumerate(spellings):
+        # two other valid units of the tag's classes to stand in front of this one (rotating through the list)
+        others = [after[(k + 1) % len(after)], after[(k + len(after) // 2) % len(after)]] if len(after) > 1 else []
+        others = [o for o in dict.fromkeys(others) if o != spelling]
+        for lit in literals:
+            canon = (spelling + " " + lit) if before else (lit + " " + spelling)
+            st, _, _, readings = orc.judge(canon, classes)
+            if st != "accepted":
+                continue                    # not a spelling the property accepts: nothing to build on
+            shapes = [("canonical", canon)] + extra_text_shapes(lit, spelling, before, parts, others)
+            for shape, ext in shapes:
+                if only is not None and ext != only:
+                    continue
+                status = orc.judge(ext, classes)[0]
+                if (shape == "canonical") != (status == "accepted") or status == "undecided":
+                    continue                # e.g. '<unit> <unit>' that happens to be a declared unit name with a blank
+                text = tag + "/" + ext
+                inp = {"schema": version, "tag": tag, "classes": classes, "unit": spelling, "before": before,
+                       "literal": lit, "text": text, "shape": shape, "extension": ext, "part": "extra_text"}
+                if count:
+                    w.case(key=(version, text), nontrivial=True,
+                           sample={"schema": version, "text": text, "shape": shape})
+                    _extra_stats[shape] = _extra_stats.get(shape, 0) + 1
+                n += 1
+                obs = observe(version, text)
+                if not w.check("validate_exc" not in obs, "C11.total.validate_no_exception", inp, obs.get("validate_exc"),
+                               "no exception"):
+                    continue
+                got = obs["issues"]
+                errs = [c for c, sev in got if sev == "E"]
+                if shape == "canonical":
+                    names = all(not r[0]["symbol"] for r in readings)
+                    clause = "C11.accept.prefix_unit_before_number" if before else \
+                        "C11.accept.name_any_case_singular_plural" if names else "C11.accept.symbol_exact_with_prefix"
+                    w.check(got == [], clause, inp, got, [])
+                elif shape == "blanks":
+                    w.check(bool(errs), L_BLANKS, inp, got, "an error-severity issue")
+                else:
+                    w.check(any(c in EXTRA_OK_CODES for c in errs), L_EXTRA, inp, got,
+                            "UNITS_INVALID (or VALUE_INVALID) with error severity")
+                    w.check("value_exc" not in obs and obs["value"] is None, "C11.conv.unrecognised_unit_is_none", inp,
+                            obs.get("value_exc", obs["value"]), None)
+    return n
+
+
+# ----------------------------------------------------------------------------------------------------------------
 # enumeration
 # ----------------------------------------------------------------------------------------------------------------
 def _case_variants(text, declared):
@@ -504,6 +612,7 @@ def run_schema(w, version, full, only_tag=None):
         for unit_text in rejected_candidates(orc, t["classes"], mods_filter):
             eval_group(w, version, t["tag"], t["classes"], unit_text, False, lits[:2])
         eval_group(w, version, t["tag"], t["classes"], None, False, lits)
+        eval_extra_text(w, version, t["tag"], t["classes"], lits[:2] if full else lits[:1], mods_filter)
         n += w.evaluations - before_n
     return n, len(tags)
 
@@ -513,8 +622,10 @@ def run(w: Workload):
               "classes x every permitted SI prefix (or none) x {lower, Capitalised, UPPER, as-declared} x {singular, plural} for "
               "names / exact text for symbols x numeric literals {3,-1.5,.5,1e3,+2,0}; plus rejected unit texts (symbol in another "
               "case, prefix of the wrong kind, prefix on a non-SI unit, plural of a symbol, units of other classes, garbage, unit on "
-              "the wrong side of the number) and the bare number; a case = one annotation text 'Tag/<number> <unit>', distinct by "
-              "(schema, text)")
+              "the wrong side of the number) and the bare number; extra text around a VALID unit: for every tag x every unit "
+              "(declared spelling and with prefix milli/kilo resp. m/k) x {<n> <junk> <unit> for 5 junk words, <n> <unit> <unit>, "
+              "<n> <other valid unit> <unit>, <n> <prefix> <unit>, two and three blanks, and the canonical <n> <unit>}; "
+              "a case = one annotation text 'Tag/<number> <unit>', distinct by (schema, text)")
     try:
         full_versions = ["8.3.0"] if w.quick else STANDARD + LIBRARIES
         sampled = [v for v in STANDARD + LIBRARIES if v not in full_versions]
@@ -537,6 +648,9 @@ def run(w: Workload):
     finally:
         _cleanup()
     w.exhaustive = not w.quick
+    w.part("extra text before a valid unit (included in the schema parts above)", cases=sum(_extra_stats.values()),
+           bound="per shape: %s; junk words %s; expected: an error with code in %s (two/three blanks: any error), the "
+                 "canonical form accepted" % (dict(_extra_stats), JUNK, list(EXTRA_OK_CODES)), exhaustive=False)
     w.part("totals by oracle verdict", cases=w.evaluations, bound="accepted / invalid / bare-number cases: %s" % dict(_stats),
            exhaustive=False)
     w.assumptions += [
@@ -559,6 +673,14 @@ def run(w: Workload):
 
 def replay(w: Workload, case: dict):
     inp = case["input"]
+    if inp.get("part") == "extra_text":
+        try:
+            eval_extra_text(w, inp["schema"], inp["tag"], inp["classes"], [inp["literal"]], count=False,
+                            only=inp["extension"])
+            w.failures = [f for f in w.failures if f["clause"] == case["clause"]]
+        finally:
+            _cleanup()
+        return
     try:
         lits = inp.get("literals") or LITERALS
         if inp.get("literal") and inp["literal"] not in lits:
